@@ -23,7 +23,8 @@ BOUNDS = ("One call from an arbitrary pre-position with all seven bounds configu
           "commanded target of G0/G1/G92/G38.x (absolute: the word; relative: tracked coordinate "
           "+ word) is inside the axes box on every axis the builder knows. G28 words are excluded "
           "(defined relative to the endstops). Interpolated segments: tracer frame condition "
-          "(every vertex is one move()).")
+          "(every vertex is one move()) plus the parametric() emission loop run on two symbolic "
+          "sample points under symbolic bounds.")
 ASSUMPTIONS = [
     "identity transform; the axes box is symbolic on the focus axis and [-1000,1000] on the others",
     "tool-number range is an arbitrary integer range with 1 <= min < max <= 99",
@@ -210,6 +211,28 @@ def _make_hook(kind, entry, rel):
     return h
 
 
+def _make_trace(rel):
+    """Interpolated segments: parametric() emission loop on two symbolic sample points with a
+    symbolic axes box and feed range; every emitted vertex must be inside."""
+    def h(p: Finite, ax: Finite, bx: Finite, f: float, alo: Finite, ahi: Finite, flo: Finite,
+          fhi: Finite):
+        assume(alo < ahi)
+        assume(flo < fhi)
+        rng = _ranges("X", alo, ahi, flo, fhi, 0.0, 10.0, 0.0, 300.0, 1, 9)
+        pre = mkpre(pos=(p, 2.0, 3.0), relative=rel, bounds=_bounds_from(rng))
+        g, rec = prepare(pre)
+        verts = [(ax, 2.5, 3.0), (bx, 4.0, 3.5)]
+        g.trace._filter_segments = lambda pts: pts
+        e = attempt(g.trace.parametric, lambda thetas: verts, 10.0, F=f)
+        if e is not None and exc_name(e) != "ValueError":
+            msg = f"{exc_name(e)}: {e}"
+            return V("trace-unexpected-exception", msg)
+        reached("accepted" if e is None else "rejected")
+        return _check_output("trace-parametric", rec, pre, rng,
+                             lambda: f"(start X={p!r}, samples X={ax!r},{bx!r}, F={f!r}, raised={exc_name(e)})")
+    return h
+
+
 def cells(tier):
     out = []
     budget = 120 if tier == "quick" else 400
@@ -224,6 +247,9 @@ def cells(tier):
                 cname = f"{name}|{'rel' if rel else 'abs'}|axis-{'known' if known else 'unknown'}"
                 out.append(Cell(cname, _make(step, rel, known), budget_s=budget,
                                 entry=f"GCodeBuilder.{name.split(':')[0].split('(')[0]}"))
+    for rel in (False, True):
+        out.append(Cell(f"trace:parametric|{'rel' if rel else 'abs'}", _make_trace(rel), budget_s=budget,
+                        entry="PathTracer.parametric (emission)"))
     for kind in ("new", "same"):
         for entry in ("move", "move-noFS"):
             for rel in (False, True):
